@@ -242,17 +242,22 @@ func (a *Animation) DecodeFramesParallel() error {
 		close(results)
 	}()
 
-	var firstErr error
+	// Results arrive in scheduling order: record errors per frame and report
+	// the one of the lowest frame index, as DecodeFrames does.
+	errs := make([]error, len(a.Frames))
 	for r := range results {
-		if r.err != nil && firstErr == nil {
-			firstErr = r.err
+		if r.err != nil {
+			errs[r.idx] = r.err
 			continue
 		}
-		if r.err == nil {
-			a.Frames[r.idx].Image = r.img
+		a.Frames[r.idx].Image = r.img
+	}
+	for _, err := range errs {
+		if err != nil {
+			return err
 		}
 	}
-	return firstErr
+	return nil
 }
 
 // argbToNRGBA converts an ARGB uint32 to color.NRGBA.
